@@ -48,6 +48,7 @@ type vpHeaderCfg struct {
 	BasicPw  string `json:"basicpw"`
 	Preserve bool   `json:"preserve"`
 	Secret   string `json:"secret"`
+	NoValues bool   `json:"novalues"` // a configured name with an empty value list
 }
 
 type vpCfg struct {
@@ -674,6 +675,10 @@ func vpApplyPerturb(cfg *vpCfg) *vpCfg {
 func vpHeaders(hs []vpHeaderCfg) []options.Header {
 	var out []options.Header
 	for _, h := range hs {
+		if h.NoValues {
+			out = append(out, options.Header{Name: h.Name, PreserveRequestValue: h.Preserve})
+			continue
+		}
 		hv := options.HeaderValue{}
 		if h.Secret != "" {
 			hv.SecretSource = &options.SecretSource{Value: []byte(h.Secret)}
